@@ -29,6 +29,7 @@ func ValidateCalendarObject(cal *ical.Calendar) (eventType string, uid string, e
 		return "", "", fmt.Errorf("calendar resource must not specify METHOD property")
 	}
 
+	var hasEventType bool
 	for _, comp := range cal.Children {
 		// Calendar object resources contained in calendar collections
 		// MUST NOT contain more than one type of calendar component
@@ -37,8 +38,9 @@ func ValidateCalendarObject(cal *ical.Calendar) (eventType string, uid string, e
 		// for each unique TZID parameter value specified in the
 		// iCalendar object.
 		if comp.Name != ical.CompTimezone {
-			if eventType == "" {
+			if !hasEventType {
 				eventType = comp.Name
+				hasEventType = true
 			}
 			if eventType != comp.Name {
 				return "", "", fmt.Errorf("conflicting event types in calendar: %s, %s", eventType, comp.Name)
